@@ -201,6 +201,8 @@ package eds
 // only after Wait. So a nil error means every slot was filled.
 //@ extern (github.com/celestiaorg/celestia-node/share/eds.Accessor).AxisRoots
 //@   ensures err == nil ==> result0 != nil
+// (call-site view: reads the accessor, writes nothing the caller holds)
+//@ extern github.com/celestiaorg/celestia-node/share/eds.NamespaceData
 //@ func NamespaceData
 //@   property C02 C11
 //@   noframe
